@@ -252,17 +252,27 @@ def check(ctx, rep):
 
     # allocation sites: plain stdlib futures must be terminal before they escape; pending outputs must be OutputFuture/_Future
     nalloc = 0
+    # private helpers that merely allocate a plain Future and hand it back to their caller are examined in that
+    # caller (inlined there): the obligation belongs to the function that lets the future escape
+    FACTORIES.clear()
+    callers_of = ctx.callgraph()
+    for fi in prog.functions.values():
+        if fi.parent is None and fi.name.startswith("_") and not fi.name.startswith("__") and callers_of.get(fi.key):
+            for ci in ctx.instances(fi):
+                ps0, it0 = ctx.paths(fi, ci, depth=0)
+                if any(p.status == "return" and isinstance(p.value, tuple) and p.value[0] == "extnew" and p.value[1] == "Future" and not any(_terminal_any(x, p.value) for x in p.calls()) for p in ps0):
+                    FACTORIES.add(fi.key)
     for fi in sorted(prog.functions.values(), key=lambda f: f.key):
-        if fi.parent is not None:
+        if fi.parent is not None or fi.key in FACTORIES:
             continue
         for ci in ctx.instances(fi):
-            ps, it = ctx.paths(fi, ci, depth=1, inline=_alloc_inline)
+            ps, it = ctx.paths(fi, ci, depth=2, inline=_alloc_inline)
             for p in ps:
                 if p.status != "return":
                     continue
                 for e in p.calls():
                     f = e.d["func"]
-                    if f == ("ext", "concurrent.futures.Future") and e.fn is fi:
+                    if f == ("ext", "concurrent.futures.Future") and (e.fn is fi or e.fn.key in FACTORIES):
                         nalloc += 1
                         obj = None
                         for k, t in p.types.items():
@@ -384,9 +394,14 @@ def _no_cb_inline(callee, ev, path):
     return None
 
 
+FACTORIES = set()
+
+
 def _alloc_inline(callee, ev, path):
     if callee.qualname in ("track_future", "record_done"):
         return False
+    if callee.key in FACTORIES:
+        return True
     if callee.name in ("copy_exception", "copy_future_exception", "try_set_result"):
         return True
     return False
